@@ -90,6 +90,7 @@ def run_check(prop, tier):
 
     # 4. correspondence sections
     failing_inputs = []      # (name, payload) property fails on the implementation here
+    section_errors = []
     disagreements = []       # (section, mismatch) behaviour differs, property not (yet) shown to fail
     if os.path.exists(common.DRIVER):
         for sec in spec.get('sections', []):
@@ -98,6 +99,13 @@ def run_check(prop, tier):
                 stats, mism, fails = sec['run'](tier, common.seed(), rep)
             except HarnessError:
                 raise
+            except Exception:
+                # a section of the harness itself crashed (typically: the code under test raised where the harness did not expect it).
+                # That is not a detection; but it must not hide what the other sections find either: go on, and give up (exit 2)
+                # at the end only if no section produced a failing input.
+                section_errors.append((sec['name'], traceback.format_exc()[-2000:]))
+                rep.notes.append('section %s crashed: %s' % (sec['name'], section_errors[-1][1][-600:]))
+                continue
             stats['wall_s'] = round(time.time() - t0, 2)
             rep.add_section(sec['name'], stats)
             for m in mism:
@@ -108,6 +116,8 @@ def run_check(prop, tier):
         rep.notes.append('driver not available: correspondence not run')
 
     # 5. verdicts
+    if section_errors and not failing_inputs:
+        raise HarnessError('section %s crashed and no other section found a failing input:\n%s' % section_errors[0])
     known = common.load_findings()
     import findings
     for name, f in failing_inputs[:5]:
